@@ -117,18 +117,32 @@ func (ts *Timers) Add(ctx context.Context, id string, message interface{}, in ti
 
 			// Not exactly what we want ...
 		case <-timer.C:
+			// The timer is due.  Decide under the lock whether
+			// it fires: if this entry is no longer the
+			// registered one, it was removed (and maybe
+			// replaced) after it became due, and a removed
+			// timer must not fire.  Otherwise unregister it
+			// before emitting: the id is free from the moment
+			// the timer fires, so the handler of the message
+			// can create a timer with the same id, and nothing
+			// created in the meantime is deleted afterwards.
+			//
+			// See https://github.com/Comcast/sheens/issues/19
+			ts.Lock()
+			if cur, have := ts.timers[id]; !have || cur != te {
+				ts.Unlock()
+				vhook("timer-abandoned", id, te)
+				return
+			}
+			delete(ts.timers, id)
+			ts.Unlock()
 			vhook("timer-due", id, te)
+
 			Logf("Timers firing %s", JS(ts))
 			if err := ts.emit(ctx, te.Message); err != nil {
 				ts.err(fmt.Errorf("Timers emit error %v id=%s", err, id))
 			}
-
 			vhook("timer-emitted", id, te)
-			// See https://github.com/Comcast/sheens/issues/19
-			ts.Lock()
-			delete(ts.timers, id)
-			ts.Unlock()
-			vhook("timer-cleaned", id, te)
 		}
 	}()
 
